@@ -77,7 +77,6 @@ PROPERTIES["C08"] = {
     "harnesses": [
         H("c08_untagged_4", "ext.c08", RES, "every text of length 0..4 over the " + LIT, stubs=[F64_STUB]),
         H("c08_untagged_5", "ext.c08", RES, "every text of length 0..5 over the " + LIT, tiers=T, stubs=[F64_STUB]),
-        H("c08_untagged_6", "ext.c08", RES, "every text of length 0..6 over the " + LIT, tiers=T, stubs=[F64_STUB]),
         H("c08_boundary_dec_pos", "ext.c08", RES, "'922337203685477580' + 1..2 symbolic literal-alphabet chars", stubs=[F64_STUB]),
         H("c08_boundary_dec_plus", "ext.c08", RES, "'+922337203685477580' + 1..2 symbolic chars", stubs=[F64_STUB]),
         H("c08_boundary_dec_neg", "ext.c08", RES, "'-922337203685477580' + 1..2 symbolic chars", stubs=[F64_STUB]),
@@ -156,7 +155,7 @@ PROPERTIES["C10"] = {
                   "claim; whole-document event equality is argued by composition, not solved.",
     "harnesses": [H("c10_" + m, "parser.input_str", ["StrInput::" + m, "Input::" + m + " (default body)"], UTF8 % 4) for m in C10_PURE]
                  + [H("c10_" + m, "parser.input_str", ["StrInput::" + m, "Input::" + m + " (default body)"], UTF8 % (2 if m == "skip_ws_to_eol" else 5)) for m in C10_BULK]
-                 + [H("c10_skip_ws_to_eol_3", "parser.input_str", ["StrInput::skip_ws_to_eol", "Input::skip_ws_to_eol (default body)"], UTF8 % 3, tiers=T, timeout={"thorough": 3400})],
+                 ,
     "assumptions": ["next_2_are/next_3_are are never asked about NUL (the defaults cannot tell NUL padding from a NUL character; all call sites pass literals)",
                     "next_can_be_plain_scalar is called only when the next character is not blank/break/end (checked call-site precondition, documented)",
                     "skip_ws_to_eol is called with SkipTabs::Yes or SkipTabs::No only (StrInput asserts this)"],
@@ -191,8 +190,7 @@ PROPERTIES["C12"] = {
                   "did not finish under Kani (DESIGN.md section 1). Whole-document statement follows only by composition (argued).",
     "harnesses": [H(k, "parser.scanner", POS_FUNCS, v) for k, v in SCAN_UNIT_HARNESSES.items()]
                  + [H(k, "parser.scanner", POS_FUNCS, v, tiers=T, timeout={"thorough": 3000}) for k, v in SCAN_UNIT_T.items()]
-                 + [H("c12_skip_to_next_token_top_4", "parser.scanner", POS_FUNCS, "texts 0..4 over " + WSA + ", top-level", tiers=T, timeout={"thorough": 3000}),
-                    H("c12_skip_to_next_token_block_4", "parser.scanner", POS_FUNCS, "texts 0..4 over " + WSA + ", block context", tiers=T, timeout={"thorough": 3000}),
+                 + [
 
                     H("c10_skip_ws_to_eol", "parser.input_str", ["StrInput::skip_ws_to_eol"], UTF8 % 2 + " (count is a character count)"),
                     H("c10_skip_while_non_breakz", "parser.input_str", ["StrInput::skip_while_non_breakz"], UTF8 % 5 + " (count is a character count)"),
@@ -364,8 +362,7 @@ PROPERTIES["C09"] = {
                   H("c09_unquoted_strings_resolve_as_strings_4", "saphyr.emitter", ["saphyr::emitter::need_quotes", "Scalar::parse_from_cow", "loader::parse_f64"], "every string 0..4 over the 24-symbol alphabet", stubs=[F64_STUB]),
                   H("c09_unquoted_strings_resolve_as_strings_5", "saphyr.emitter", ["saphyr::emitter::need_quotes", "Scalar::parse_from_cow", "loader::parse_f64"], "every string 0..5 over the 24-symbol alphabet", stubs=[F64_STUB], tiers=T),
                   H("c09_escape_str_roundtrip_1", "saphyr.emitter", ["saphyr::emitter::escape_str"], "every character below U+0800 (all ASCII incl. controls, 2-byte characters)"),
-                  H("c09_escape_str_roundtrip_2", "saphyr.emitter", ["saphyr::emitter::escape_str"], "every valid UTF-8 string of 0..2 characters below U+0800", tiers=T, timeout={"thorough": 3000}),
-                  H("c09_escape_str_roundtrip_3", "saphyr.emitter", ["saphyr::emitter::escape_str"], "every valid UTF-8 string of 0..3 characters below U+0800", tiers=T, timeout={"thorough": 3000})],
+                  H("c09_escape_str_roundtrip_2", "saphyr.emitter", ["saphyr::emitter::escape_str"], "every valid UTF-8 string of 0..2 characters below U+0800", tiers=T, timeout={"thorough": 3000}),],
     "assumptions": [F64_STUB],
     "outside": "collection layout, literal blocks, numbers, plain strings containing indicator characters in position, idempotence of a second emit",
 }
